@@ -397,6 +397,24 @@ impl DecompressorOxide {
     }
 }
 
+/// Verification hook (only with `--cfg miniz_oxide_verif`): a read-only projection of the
+/// state that survives between calls, used to measure which suspension points were exercised.
+#[cfg(all(miniz_oxide_verif, feature = "with-alloc"))]
+impl DecompressorOxide {
+    /// (state name, num_bits, counter, dist, num_extra, finish, block_type)
+    pub fn verif_state(&self) -> (alloc::string::String, u32, u32, u32, u8, u8, u8) {
+        (
+            alloc::format!("{:?}", self.state),
+            self.num_bits,
+            self.counter,
+            self.dist,
+            self.num_extra,
+            self.finish,
+            self.block_type,
+        )
+    }
+}
+
 impl Default for DecompressorOxide {
     /// Create a new tinfl_decompressor with all fields set to 0.
     #[inline(always)]
